@@ -11,7 +11,7 @@ import traceback
 
 _READY = False
 _RSS_MARK = None
-RSS_GROWTH_MB = 512
+RSS_GROWTH_MB = int(os.environ.get("VERIF_RSS_GROWTH_MB", "512"))
 
 
 def _rss_mb() -> float:
